@@ -152,7 +152,9 @@ PLAN = {
                      {"gen": ("tlc", {"name": "race-configs-short-connect-timeout", "tla": "MC_Happy.tla", "cfg": "MC_Happy.cfg", "workers": 8}),
                       "runner": "happy", "trace": "Trace_Happy", "threads": 12, "budget_ms": 60000, "with": {"cto": 300}},
                      {"gen": ("tlc", {"name": "race-configs-deadline", "tla": "MC_Happy.tla", "cfg": "MC_Happy.cfg", "workers": 8}),
-                      "runner": "happy", "trace": "Trace_Happy", "threads": 12, "budget_ms": 60000, "with": {"T": 100, "cto": 2000}}],
+                      "runner": "happy", "trace": "Trace_Happy", "threads": 12, "budget_ms": 60000, "with": {"T": 100, "cto": 2000}},
+                     {"gen": ("tlc", {"name": "race-configs-deadline-already-passed", "tla": "MC_Happy.tla", "cfg": "MC_Happy.cfg", "workers": 8}),
+                      "runner": "happy", "trace": "Trace_Happy", "threads": 12, "budget_ms": 60000, "with": {"T": 1, "cto": 2000, "expired": True}}],
         "rule": "HappyEyeballs.tla (staggered spawn, one race interval per wait, drain) checked by TLC for every resolver list of up to 2 (thorough: 3) addresses per family in every family order and every assignment of {accept, refuse, black-hole}: succeeds iff some address accepts, winner accepted, honest failure, attempt order, one interval per unresponsive address, termination; every configuration is then raced for real against loopback listeners (closed port = refuse, full accept queue = black hole) through the resolver override, attempt order taken from the spawn hook",
         "assumptions": ["race interval 200 ms, client connect timeout 600 ms, slack 350 ms on elapsed time", "which accepting address wins a race is left open by the contract"],
         "replay_runner": "happy", "replay_trace": "Trace_Happy",
